@@ -272,6 +272,28 @@ func (op c11Op) apply(x, y gts.Sequence) interface{} {
 		return gts.Concat(y, x)
 	case "concat-xx":
 		return gts.Concat(x, x, y)
+	case "concat-list":
+		// a caller's own list handed over with Concat(list...): the list is an argument too. It holds sequences without
+		// residues and features between the others and has spare capacity.
+		empty := gts.New(nil, nil, nil)
+		shapes := [][]gts.Sequence{{x, empty, y}, {x, y, empty, x}, {empty, x, empty, empty, y}, {x, empty, empty, y, x}, {y, empty, x}, {x, empty}}
+		src := shapes[mod(op.I, len(shapes))]
+		list := make([]gts.Sequence, len(src), len(src)+3)
+		copy(list, src)
+		before := make([]string, len(list))
+		for i, e := range list {
+			before[i] = resultDump(e)
+		}
+		first := gts.Concat(list...)
+		for i, e := range list {
+			if d := resultDump(e); d != before[i] {
+				return fmt.Sprintf("ARGUMENT-MODIFIED by Concat(list...): element %d of the caller's list of %d was %s and is now %s", i, len(list), clipStr(before[i], 200), clipStr(d, 200))
+			}
+		}
+		if again := gts.Concat(list...); resultDump(again) != resultDump(first) {
+			return "ARGUMENT-MODIFIED by Concat(list...): concatenating the same list again gives " + clipStr(resultDump(again), 300) + " after " + clipStr(resultDump(first), 300)
+		}
+		return first
 	case "reverse":
 		return gts.Reverse(x)
 	case "rotate":
@@ -398,7 +420,7 @@ var c11Prop = &Prop[c11Case]{ID: "C11", Check: c11Check, Classify: c11Classify, 
 
 func init() { registerReplay(c11Prop) }
 
-var c11OpNames = []string{"insert", "embed", "delete", "erase", "slice", "concat-xy", "concat-yx", "concat-xx", "reverse", "rotate",
+var c11OpNames = []string{"insert", "embed", "delete", "erase", "slice", "concat-xy", "concat-yx", "concat-xx", "concat-list", "reverse", "rotate",
 	"complement", "transcribe", "withinfo", "withfeatures", "withbytes", "withtopology", "repair", "cutrepair", "cutrepair", "filter", "finsert", "locate", "search"}
 
 func c11GenOp(t *rapid.T, L int, name string) c11Op {
